@@ -408,6 +408,44 @@ def optimizer_outputs(ctx, n):
                 break
 
 
+def simplify_outputs(ctx, n):
+    """simplify / normalize with every option combination on boolean expressions (the rules rewrite in place and
+    repair pointers by hand): the result must satisfy the same structural invariants"""
+    import sqlglot
+    from sqlglot.errors import SqlglotError
+    from sqlglot.optimizer.simplify import simplify
+    from sqlglot.optimizer.normalize import normalize
+    from .c06 import gb, targeted
+
+    for i in ctx.mine(n):
+        if ctx.expired():
+            break
+        rng = ctx.case_rng(3_000_000 + i)
+        text = targeted(rng) if rng.random() < 0.4 else gb(rng, rng.randint(1, 4))
+        if rng.random() < 0.4:
+            c, d, k = rng.choice(["a", "b"]), rng.choice(["a", "b", "p"]), rng.choice([1, 2, 5])
+            text = f"({text}) AND {c} = {d} AND {d} = {k}" if rng.random() < 0.5 else f"{c} = {k} AND ({text}) AND {d} > {c}"
+        opts = {"constant_propagation": rng.random() < 0.5, "coalesce_simplification": rng.random() < 0.5}
+        for kind in ("simplify", "normalize"):
+            try:
+                tree = sqlglot.parse_one(text if rng.random() < 0.6 else f"SELECT x FROM t WHERE {text}", read="duckdb")
+                hash(tree)
+                out = simplify(tree, dialect="duckdb", **opts) if kind == "simplify" else normalize(tree, dnf=rng.random() < 0.5)
+            except SqlglotError:
+                continue
+            except Exception:
+                ctx.count("simplify_internal_error(C05/C06)")
+                continue
+            ctx.count("evaluations")
+            ctx.count("simplify_outputs_checked")
+            probs = inspect(out)
+            if probs:
+                p = probs[0]
+                on = "+".join(k for k, v in opts.items() if v) or "default"
+                ctx.violation(f"rule-output:{kind}:{p[0]}:{on if kind == 'simplify' else '-'}", {"expr": text, "options": opts, "problem": p},
+                              {"expr": text, "options": opts})
+
+
 def optimizer_probes(ctx):
     from sqlglot import exp
     from sqlglot.optimizer import optimizer as O
@@ -439,6 +477,7 @@ def worker(ctx):
     random_sequences(ctx, spec["random"])
     parser_outputs(ctx, spec["parse_statements"])
     optimizer_outputs(ctx, spec["opt_queries"])
+    simplify_outputs(ctx, spec["opt_queries"] * 2)
 
 
 def conclude(agg):
